@@ -19,8 +19,8 @@ theorem selectCuts_spec (O : SplitOps α) (T dT : α) (rem : List α) :
       · exact ih.2 u hu
     · simp [selectCuts, h]
 
-theorem cutsGen_length {Q : Type} (sub div : α → α → α) (one : α) (sl sr : Q → α → Q) (r : Q) (t0 : α)
-    (ts : List α) : (cutsGen sub div one sl sr r t0 ts).1.length = ts.length := by
+theorem cutsGen_length {Q : Type} (lt : α → α → Bool) (sub div : α → α → α) (one : α) (sl sr : Q → α → Q)
+    (r : Q) (t0 : α) (ts : List α) : (cutsGen lt sub div one sl sr r t0 ts).1.length = ts.length := by
   induction ts generalizing r t0 with
   | nil => rfl
   | cons t ts ih => simp [cutsGen, ih]
@@ -63,7 +63,7 @@ theorem quadCase_bookkeeping (start cp e : Pt α) (o : SegOracle α) (s s' : SSt
     simp only
     have := foldl_push_length (α := α) (fun st (pc : Pt α × Pt α × Pt α) => quadTo G pc.2.1 pc.2.2 st.q)
       (fun st pc => moveTo pc.2.2 st.q)
-      (cutsGen O.sub O.div O.one O.quadL O.quadR (start, cp, e) O.zero (monoClamp O.lt O.zero o.inv)).1 s
+      (cutsGen O.lt O.sub O.div O.one O.quadL O.quadR (start, cp, e) O.zero (monoClamp O.lt O.zero o.inv)).1 s
     rw [cutsGen_length, monoClamp_length] at this
     split <;> simp_all
 
@@ -85,7 +85,7 @@ theorem cubeCase_bookkeeping (start c1 c2 e : Pt α) (o : SegOracle α) (s s' : 
     have := foldl_push_length (α := α)
       (fun st (pc : Pt α × Pt α × Pt α × Pt α) => cubeTo G pc.2.1 pc.2.2.1 pc.2.2.2 st.q)
       (fun st pc => moveTo pc.2.2.2 st.q)
-      (cutsGen O.sub O.div O.one O.cubeL O.cubeR (start, c1, c2, e) O.zero (monoClamp O.lt O.zero o.inv)).1 s
+      (cutsGen O.lt O.sub O.div O.one O.cubeL O.cubeR (start, c1, c2, e) O.zero (monoClamp O.lt O.zero o.inv)).1 s
     rw [cutsGen_length, monoClamp_length] at this
     split <;> simp_all
 
